@@ -65,7 +65,14 @@ pub enum Shape {
 
 #[derive(Clone, Debug, Serialize, Deserialize)]
 pub enum Act {
-    Provide { user: String, shape: Shape, receiver: Option<String> },
+    Provide {
+        user: String,
+        shape: Shape,
+        receiver: Option<String>,
+        /// the message lists the assets in the reverse of the pool's order
+        #[serde(default)]
+        reversed: bool,
+    },
     Withdraw { user: String, part: String },
     /// withdrawal attempts that do not go through the LP token's Send hook: the direct
     /// WithdrawLiquidity{} message with an unrelated coin attached, or a forged Receive
@@ -234,7 +241,7 @@ impl Scenario for PairScn {
             }
             v.push(Act::Collect { user: MALLORY.to_string() });
             v.push(Act::CollectVia { user: BOB.to_string() });
-            v.push(Act::Provide { user: BOB.to_string(), shape: Shape::Prop1pct, receiver: None });
+            v.push(Act::Provide { user: BOB.to_string(), shape: Shape::Prop1pct, receiver: None, reversed: false });
             if w.cw20_balance(&h.pair.lp, ALICE) > 0 {
                 v.push(Act::Withdraw { user: ALICE.to_string(), part: "half".to_string() });
             }
@@ -287,11 +294,15 @@ impl Scenario for PairScn {
                 vec![Shape::Prop1pct, Shape::Imbalanced]
             };
             for s in shapes {
-                v.push(Act::Provide { user: u.to_string(), shape: s, receiver: None });
+                // the first user also sends the lopsided shapes with the assets listed in reverse order
+                if ui == 0 && supply > 0 && matches!(s, Shape::Imbalanced | Shape::Skew) {
+                    v.push(Act::Provide { user: u.to_string(), shape: s.clone(), receiver: None, reversed: true });
+                }
+                v.push(Act::Provide { user: u.to_string(), shape: s, receiver: None, reversed: false });
             }
         }
         if supply > 0 && !self.reduced {
-            v.push(Act::Provide { user: BOB.to_string(), shape: Shape::Prop1pct, receiver: Some(CAROL.to_string()) });
+            v.push(Act::Provide { user: BOB.to_string(), shape: Shape::Prop1pct, receiver: Some(CAROL.to_string()), reversed: false });
         }
         // withdrawals
         for u in users.iter() {
@@ -322,13 +333,13 @@ impl Scenario for PairScn {
         let pre_pending = pair_fees(w, &h.pair.addr, false).unwrap_or([0, 0]);
         let p = &h.pair;
         match a {
-            Act::Provide { user, shape, receiver } => {
+            Act::Provide { user, shape, receiver, reversed } => {
                 let (res, supply) = pre.unwrap();
                 let d = shape_amounts(shape, res);
                 let rcv = receiver.clone().unwrap_or(user.clone());
                 let lp_before = w.cw20_balance(&p.lp, &rcv);
                 let ub = [info_balance(w, &p.assets[0], user), info_balance(w, &p.assets[1], user)];
-                let r = pair_provide(w, p, user, d, None, receiver.as_deref());
+                let r = pair_provide_ordered(w, p, user, d, None, receiver.as_deref(), *reversed);
                 match r {
                     Ok(_) => {
                         cx.count("provide:ok");
